@@ -1,16 +1,19 @@
-// copies the CURRENT grammar of the repository under test next to the crate so that
-// #[derive(pest_derive::Parser)] derives the parser from what grammar.pest says now
+// Copies the CURRENT grammar of the repository under test ($MSCRIPT_REPO, default /repo) into OUT_DIR and
+// generates the parser declaration pointing at that copy, so that #[derive(pest_derive::Parser)] derives
+// the parser from what compiler/src/grammar.pest says now (per target directory: no shared state).
 use std::{env, fs, path::PathBuf};
 fn main() {
     let repo = env::var("MSCRIPT_REPO").unwrap_or_else(|_| "/repo".into());
     let src = PathBuf::from(&repo).join("compiler/src/grammar.pest");
-    let dst_dir = PathBuf::from(env::var("CARGO_MANIFEST_DIR").unwrap()).join("target");
-    fs::create_dir_all(&dst_dir).unwrap();
+    let out = PathBuf::from(env::var("OUT_DIR").unwrap());
     let text = fs::read_to_string(&src).expect("grammar.pest of the repository");
-    let dst = dst_dir.join("grammar.pest");
-    if fs::read_to_string(&dst).ok().as_deref() != Some(text.as_str()) {
-        fs::write(&dst, text).unwrap();
-    }
+    let dst = out.join("grammar.pest");
+    fs::write(&dst, text).unwrap();
+    let decl = format!(
+        "#[derive(pest_derive::Parser)]\n#[grammar = {:?}]\nstruct G;\n",
+        dst.to_str().unwrap()
+    );
+    fs::write(out.join("g.rs"), decl).unwrap();
     println!("cargo:rerun-if-env-changed=MSCRIPT_REPO");
     println!("cargo:rerun-if-changed={}", src.display());
     println!("cargo:rerun-if-changed=build.rs");
